@@ -268,10 +268,10 @@ class Harness(object):
             return [magnitude * rng.choice((1, -1))], [other * rng.choice((1, -1))]
 
         def neutral(m):
-            if n == 2:
-                c = [m, -m]
+            if n % 2 == 0:
+                c = [m, -m] * (n // 2)
             else:
-                c = [m, m, -2.0 * m]        # water-like: two equal charges and their exact negative sum
+                c = [m] * (n - 1) + [-(n - 1.0) * m]    # water-like: equal charges and their exact negative sum
             if rng.random() < 0.5:
                 c = [-x for x in c]
             rng.shuffle(c)
@@ -370,7 +370,7 @@ class Harness(object):
         length = spec["L"]
         a, targets = self.pairs(spec)
         position = [wrap(a["pos"][d] + spec["velocity"][d] * dt, length) for d in range(3)]
-        true_pairs, bounding_pairs, separations = [], [], []
+        true_pairs, bounding_pairs, separations, scale = [], [], [], 0.0
         for t in targets:
             s = nearest_image(t["pos"], position, length)
             if any(abs(abs(c) - 0.5 * length) < HALF_BOX_GUARD * length for c in s):
@@ -378,10 +378,14 @@ class Harness(object):
             cs = (a["charge"]["charge"], t["charge"]["charge"]) if use_charge else (1.0, 1.0)
             separations.append(s)
             true_pairs.append(true_potential.derivative(list(spec["velocity"]), list(s), *cs))
+            # magnitude of the terms the derivative is summed from (lattice sums cancel: the rounding error of a pair
+            # derivative is relative to the nearest-image Coulomb term, not to the possibly tiny result)
+            scale += max(abs(true_pairs[-1]),
+                         abs(cs[0] * cs[1]) * spec["speed"] * (1.0 / sum(c * c for c in s) + 1.0 / length ** 2))
             if bounding_potential is not None:
                 bounding_pairs.append(bounding_potential.derivative(list(spec["velocity"]), list(s), *cs))
         return {"q": max(0.0, sum(true_pairs)), "true_pairs": true_pairs, "bounding_pairs": bounding_pairs,
-                "separations": separations, "scale": sum(abs(x) for x in true_pairs)}
+                "separations": separations, "scale": scale}
 
     def expected_sliced(self, spec, snap0, dt, event_time):
         expected = {}
@@ -461,13 +465,15 @@ class Harness(object):
         return out, delta
 
     def run_state(self, family, spec, handler, exponentials, proposal, true_potential, bounding_potential, use_charge,
-                  veto=None):
+                  veto=None, probe_rate=None):
         """proposal: "pairs" (bound = sum of clipped pair bounding derivatives), "quotient" (bound = draw / time
         displacement), "veto" (bound = speed * |charge factor| * estimator bound of the sampled offset)."""
         rng = self.rng
         length = spec["L"]
         fractions = [rng.random() for _ in range(16)]
         ctx = {"family": family, "state": self.describe(spec), "exponential_draws": list(exponentials)}
+        if len(self.violations) >= 8:
+            return
         self.cases += 1
         self.per_family[family] = self.per_family.get(family, 0) + 1
         t0 = self.Time.from_float(spec["t0"])
@@ -509,6 +515,9 @@ class Harness(object):
                     if r is None:
                         self.skipped["half_box"] += 1
                         return
+                    if veto is not None and not first["target_present"]:
+                        # no unit in the sampled cell: nothing can be confirmed, no confirmation draw is made
+                        r = dict(r, q=0.0, true_pairs=[], scale=0.0)
                     first["rates"] = r
                     if proposal == "pairs":
                         bound = sum(max(0.0, b) for b in r["bounding_pairs"])
@@ -516,8 +525,16 @@ class Harness(object):
                         if not self.check_pair_proposal(spec, bounding_potential, use_charge, exponentials, dt, ctx):
                             return
                     elif proposal == "quotient":
-                        bound = exponentials[0] / self.setting.beta / dt
+                        # constant-rate proposal: the rate was measured with the probe draw 1.0 (long time
+                        # displacement, so the quotient is accurate); this draw must give the same rate
+                        bound = probe_rate
                         bound_tol = REL_B_QUOTIENT * bound
+                        expected_dt = exponentials[0] / self.setting.beta / bound
+                        self.evaluations += 1
+                        if not abs(dt - expected_dt) <= REL_B_QUOTIENT * expected_dt + 1e-14:
+                            self.bad("(a) the time displacement is not (exponential draw) / (constant bounding rate)",
+                                     got=dt, expected=expected_dt, rate=bound, **ctx)
+                            return
                     else:
                         bound = first["veto_bound"]
                         bound_tol = REL_B * bound
@@ -566,12 +583,14 @@ class Harness(object):
                 if a != 0.0 or not abs(b - bound) <= bound_tol:
                     if veto is not None and spec["speed"] != 1.0 and a == 0.0 and \
                             abs(b * spec["speed"] - bound) <= bound_tol:
-                        self.observe(OBSERVATION_SPEED, family=family, speed=spec["speed"], handler_bound=b,
-                                     proposal_rate=bound, q=r["q"])
+                        if not first.get("observed"):
+                            first["observed"] = True
+                            self.observe(OBSERVATION_SPEED, family=family, speed=spec["speed"], handler_bound=b,
+                                         proposal_rate=bound, q=r["q"])
+                    else:
+                        self.bad("(a) the confirmation draw is uniform(%r, %r) but the event was proposed at the rate %r"
+                                 % (a, b, bound), **ctx_u)
                         return
-                    self.bad("(a) the confirmation draw is uniform(%r, %r) but the event was proposed at the rate %r"
-                             % (a, b, bound), **ctx_u)
-                    return
             elif r["q"] > first["delta"]:
                 self.evaluations += 1
                 self.bad("(a) no confirmation draw although the true rate is positive", **ctx_u)
@@ -670,8 +689,8 @@ class Harness(object):
 
         def placement():
             size = rng.choice((0.03, 0.08, 0.15)) * length if n > 1 else 0.0
-            kind = rng.randrange(4)
             while True:
+                kind = rng.randrange(4)
                 a = [rng.uniform(0.0, length) for _ in range(3)]
                 if kind == 0:       # close pair
                     t = [c + rng.uniform(-0.2, 0.2) * length for c in a]
@@ -679,7 +698,7 @@ class Harness(object):
                     t = [c + rng.choice((-1, 1)) * rng.uniform(0.3, 0.5) * length for c in a]
                 else:
                     t = [rng.uniform(0.0, length) for _ in range(3)]
-                if math.dist(nearest_image(t, a, length), (0.0, 0.0, 0.0)) > 2.5 * size + 0.03 * length:
+                if math.dist(nearest_image(t, a, length), (0.0, 0.0, 0.0)) > size + 0.03 * length:
                     return a, t, size
         return placement
 
@@ -821,7 +840,7 @@ class Harness(object):
                                                       spec["direction"], sides)
                 dt_wanted = rng.choice((1e-9, rng.uniform(0.05, 0.9))) * wall / spec["speed"]
                 self.run_state(family, spec, handler, [rate * dt_wanted * self.setting.beta], "quotient", true_oracle,
-                               None, use_charge)
+                               None, use_charge, probe_rate=rate)
 
     # ---------------------------------------------------------------------------------------------------------------
     def family_cell_veto(self, count, n, composite, sides):
@@ -878,6 +897,7 @@ class Harness(object):
                 wall = self.distance_to_cell_wall(active_obj["leaves"][spec["active"][1]]["pos"],
                                                   spec["direction"], sides)
             dt_wanted = self.rng.choice((1e-9, self.rng.uniform(0.05, 0.9))) * wall / spec["speed"]
+            veto["probe_total"] = 1.0 / self.setting.beta / dt0
             self.run_state(family, spec, handler, [dt_wanted / dt0], "veto", true_oracle, None, True, veto=veto)
 
     def veto_bound(self, veto, offset, direction):
@@ -927,11 +947,13 @@ class Harness(object):
             if not self.nearby(digits_, sides):
                 up, low = self.veto_bound(veto, digits_, direction)
                 total += max(0.0, up * charge if charge > 0.0 else low * charge)
-        proposed_total = exponentials[0] / self.setting.beta / dt
+        proposed_total = veto["probe_total"]        # measured with the probe draw 1.0
+        expected_dt = exponentials[0] / self.setting.beta / (speed * total) if total > 0.0 else math.inf
         self.evaluations += 1
-        if not abs(proposed_total - speed * total) <= REL_B_QUOTIENT * speed * total:
+        if not (abs(proposed_total - speed * total) <= REL_B_QUOTIENT * speed * total
+                and abs(dt - expected_dt) <= REL_B_QUOTIENT * expected_dt + 1e-14):
             self.bad("(a) cell-veto: the candidate time is not drawn from speed * sum of the clipped cell bounds",
-                     proposed_rate=proposed_total, expected=speed * total, **ctx)
+                     proposed_rate=proposed_total, expected=speed * total, dt=dt, expected_dt=expected_dt, **ctx)
             return False
         # the target object: somewhere in the sampled cell (or no object there)
         first["target_present"] = rng.random() < 0.93
@@ -964,7 +986,7 @@ class Harness(object):
         self.imports()
         level = self.level
         boxes = [1.0, 2.7] if level == 1 else [1.0, 2.7, 0.6, 11.0]
-        per = 1 if level == 1 else 6
+        per = 4 if level == 1 else 16
         for box_index, length in enumerate(boxes):
             beta = (1.0, 2.0, 0.5, 1.0)[box_index % 4]
             # ---- bounding potential = scaled nearest-image 1/r
